@@ -174,9 +174,9 @@ func TestVerifC08RegressHttpx(t *testing.T) {
 		{"D1FormOptionalDepDropsRange",
 			gen.S(gen.FK("form", "a", I, "optional=b", "range=[1:5]"), gen.FK("form", "b", I, "optional")),
 			map[string]map[string]any{"form": {"a": "100", "b": "1"}}},
-		{"D11FormNaNPassesRange", gen.S(gen.FK("form", "a", F64, "range=[1:5]")),
+		{"N1FormNaNPassesRange", gen.S(gen.FK("form", "a", F64, "range=[1:5]")),
 			map[string]map[string]any{"form": {"a": "NaN"}}},
-		{"D11HeaderNaNPassesRange", gen.S(gen.FK("header", "x-a", F64, "range=(0:1)")),
+		{"N1HeaderNaNPassesRange", gen.S(gen.FK("header", "x-a", F64, "range=(0:1)")),
 			map[string]map[string]any{"header": {"x-a": "nan"}}},
 	}
 	for _, c := range cases {
@@ -191,19 +191,19 @@ func TestVerifC08RegressHttpx(t *testing.T) {
 				c.name, c.spec, req, o.target.Elem().Interface())
 		}
 	}
-	// D12: `optional=!dep` under the header key; the request meets every constraint
+	// N2: `optional=!dep` under the header key; the request meets every constraint
 	st.Eval()
 	spec := gen.S(gen.FK("header", "x-a", I, "optional"), gen.FK("header", "x-b", I, "optional=!x-a"))
 	r, norm, req := buildRequest(map[string]map[string]any{"header": {"x-a": "1"}}, false, false)
 	o := parse(spec, r)
 	switch {
 	case o.panicked != nil:
-		t.Errorf("C08 VIOLATED (regression D12HeaderNegatedDep): panic %v; type %s request %s", o.panicked, spec, req)
+		t.Errorf("C08 VIOLATED (regression N2HeaderNegatedDep): panic %v; type %s request %s", o.panicked, spec, req)
 	case o.err != nil:
-		t.Errorf("C08 VIOLATED (regression D12HeaderNegatedDep): valid request rejected: %v; type %s request %s", o.err, spec, req)
+		t.Errorf("C08 VIOLATED (regression N2HeaderNegatedDep): valid request rejected: %v; type %s request %s", o.err, spec, req)
 	default:
 		if msgs := gen.Check(spec, norm, o.target); len(msgs) > 0 {
-			t.Errorf("C08 VIOLATED (regression D12HeaderNegatedDep): %v; type %s request %s", msgs, spec, req)
+			t.Errorf("C08 VIOLATED (regression N2HeaderNegatedDep): %v; type %s request %s", msgs, spec, req)
 		}
 	}
 }
